@@ -36,6 +36,19 @@ package middleware
 //@ loop 1 invariant calls(PA) == 1 && ret(PA,0,0) == specs && len(specs) > 0
 //@ loop 1 invariant nmInv(offers, specs, defaultOffer, outer(rangeindex)+1, rangeindex+1, bestQ, bestWild, bestOffer)
 
+// NegotiateContentEncoding: the answer is one of the offers, or "identity" when nothing matched, or "" when the best match has quality 0
+//@ func NegotiateContentEncoding
+//@ watch PA = call middleware/header.ParseAccept
+//@ requires r != nil
+//@ assigns \nothing
+//@ ensures [C07:encparse] calls(PA) == 1 && arg(PA,0,0) == r.Header && arg(PA,0,1) == "Accept-Encoding"
+//@ ensures [C07:encoffer] result == "" || result == "identity" || exists k int :: 0 <= k && k < len(offers) && offers[k] == result
+//@ ensures [C07:encnone] (forall o int, s int :: 0 <= o && o < len(offers) && 0 <= s && s < len(ret(PA,0,0)) ==> !(ret(PA,0,0)[s].Value == "*" || ret(PA,0,0)[s].Value == offers[o])) ==> result == "identity"
+//@ loop 0 invariant calls(PA) == 1 && ret(PA,0,0) == specs && bestQ >= -1 && (bestOffer == "identity" || exists k int :: 0 <= k && k <= rangeindex && offers[k] == bestOffer)
+//@ loop 0 invariant (forall o int, s int :: 0 <= o && o <= rangeindex && 0 <= s && s < len(specs) ==> !(specs[s].Value == "*" || specs[s].Value == offers[o])) ==> bestOffer == "identity" && bestQ == -1
+//@ loop 1 invariant calls(PA) == 1 && ret(PA,0,0) == specs && bestQ >= -1 && 0 <= outer(rangeindex) + 1 && outer(rangeindex) + 1 < len(offers) && (bestOffer == "identity" || exists k int :: 0 <= k && k <= outer(rangeindex) + 1 && offers[k] == bestOffer)
+//@ loop 1 invariant (forall o int, s int :: 0 <= o && 0 <= s && s < len(specs) && (o <= outer(rangeindex) || (o == outer(rangeindex) + 1 && s <= rangeindex)) ==> !(specs[s].Value == "*" || specs[s].Value == offers[o])) ==> bestOffer == "identity" && bestQ == -1
+
 // ---------------------------------------------------------------- spec.go, ui_options.go, redoc.go, rapidoc.go, swaggerui*.go (C20)
 
 //@ func Spec$1
